@@ -1,29 +1,17 @@
 #!/usr/bin/env python3
-"""C06 detection demo hide_ignores_filename: hide no longer removes a line whose source file (rather than function name) matches.
+"""C06 detection demo tag_focus_xor_ignore: FilterSamplesByTag keeps a sample when exactly one of tagfocus/tagignore matches (focused != ignored), i.e. also samples that are ignored and not focused.
 
 Exact-text substitution on the current /repo/profile/filter.go; nothing under /repo is
 touched. Prints the path of a `go build -overlay` json:
-    ov=$(python3 /verif/demos/C06_hide_ignores_filename.py)
+    ov=$(python3 /verif/demos/C06_tag_focus_xor_ignore.py)
     cd /repo && go test -overlay $ov -vet=off -count=1 ./...     # existing suite
     cd /verif && ./pmc check C06 --solo --extra $ov              # must report a VIOLATION
 """
 import json, os
 SRC = '/repo/profile/filter.go'
-OUT = '/tmp/c06-demo/hide_ignores_filename'
+OUT = '/tmp/c06-demo/tag_focus_xor_ignore'
 SUBS = [
-    ("""	for _, ln := range loc.Line {
-		if fn := ln.Function; fn != nil {
-			if re.MatchString(fn.Name) || re.MatchString(fn.Filename) {
-				continue
-			}
-		}
-		lines = append(lines, ln)""", """	for _, ln := range loc.Line {
-		if fn := ln.Function; fn != nil {
-			if re.MatchString(fn.Name) {
-				continue
-			}
-		}
-		lines = append(lines, ln)"""),
+    ("		if focused && !ignored {\n			samples = append(samples, s)", "		if focused != ignored {\n			samples = append(samples, s)"),
 ]
 s = open(SRC).read()
 for old, new in SUBS:
